@@ -2,156 +2,8 @@
 
 package main
 
-import (
-	"strings"
-
-	"github.com/mk6i/mkdb/sql"
-	"github.com/mk6i/mkdb/storage"
-)
-
 func init() {
 	verifRegister("C19_conv", verifH_C19_conv)
-	verifRegister("C19_stream", verifH_C19_stream)
-}
-
-// stub relation manager that records the rows it is asked to insert
-type verifImportRM struct {
-	inserted [][]interface{}
-	cols     [][]string
-	failOn   int // 1-based index of the Insert call that fails (0: never)
-	calls    int
-}
-
-func (m *verifImportRM) StartTxn() {}
-func (m *verifImportRM) EndTxn()   {}
-func (m *verifImportRM) CreateTable(r *storage.Relation, tableName string) error {
-	return nil
-}
-func (m *verifImportRM) MarkDeleted(tableName string, rowID uint32) (storage.WALBatch, error) {
-	return nil, nil
-}
-func (m *verifImportRM) Fetch(tableName string) ([]*storage.Row, []*storage.Field, error) {
-	return nil, nil, nil
-}
-func (m *verifImportRM) Update(tableName string, rowID uint32, cols []string, updateSrc []interface{}) (storage.WALBatch, error) {
-	return nil, nil
-}
-func (m *verifImportRM) Insert(tableName string, cols []string, vals []interface{}) (storage.WALBatch, error) {
-	m.calls++
-	if m.calls == m.failOn {
-		return nil, storage.ErrTypeMismatch
-	}
-	m.inserted = append(m.inserted, append([]interface{}(nil), vals...))
-	m.cols = append(m.cols, cols)
-	return nil, nil
-}
-func (m *verifImportRM) FlushWALBatch(batch storage.WALBatch) error { return nil }
-
-var _ = sql.EQ
-
-// verifRefInt: reference meaning of a decimal field (optional sign, digits only).
-// ok=false when the text is not an integer.
-func verifRefInt(s string) (v int64, ok bool) {
-	if len(s) == 0 {
-		return 0, false
-	}
-	i := 0
-	neg := false
-	if s[0] == '-' || s[0] == '+' {
-		neg = s[0] == '-'
-		i = 1
-		if len(s) == 1 {
-			return 0, false
-		}
-	}
-	for ; i < len(s); i++ {
-		d := s[i]
-		if d < '0' || d > '9' {
-			return 0, false
-		}
-		v = v*10 + int64(d-'0')
-	}
-	if neg {
-		v = -v
-	}
-	return v, true
-}
-
-func verifRefBool(s string) (v, ok bool) {
-	switch strings.ToLower(s) {
-	case "1", "true", "t":
-		return true, true
-	case "0", "false", "f":
-		return false, true
-	}
-	return false, false
-}
-
-var verifTypes = []storage.DataType{storage.TypeInt, storage.TypeVarchar, storage.TypeBoolean, storage.TypeBigInt}
-
-// verifField returns a CSV field of class k: 0 symbolic bytes of length n
-// (free of separators, quotes and line breaks), 1 the NULL marker, 2 a fixed
-// boolean spelling, 3 a number of n symbolic digits.
-func verifField(tag string, k, n int) string {
-	switch k {
-	case 1:
-		return "\\N"
-	case 2:
-		return []string{"true", "F", "0", "t"}[verifChoice(tag+"spelling", 4)]
-	case 3:
-		b := verifBytes(tag, n)
-		for _, c := range b {
-			verifAssume(verifAnd(c >= '0', c <= '9'))
-		}
-		return string(b)
-	default:
-		b := verifBytes(tag, n)
-		for _, c := range b {
-			verifAssume(verifAnd(verifAnd(c != ',', c != '"'), verifAnd(c != '\n', c != '\r')))
-			verifAssume(verifAnd(c >= 0x20, c < 0x7f))
-		}
-		return string(b)
-	}
-}
-
-// verifExpect is what a field must convert to for a column type: (value, accepted).
-func verifExpect(t storage.DataType, field string) (interface{}, bool) {
-	if field == "\\N" {
-		return nil, true
-	}
-	switch t {
-	case storage.TypeInt, storage.TypeBigInt:
-		v, ok := verifRefInt(field)
-		if !ok {
-			return nil, false
-		}
-		return v, true
-	case storage.TypeBoolean:
-		v, ok := verifRefBool(field)
-		if !ok {
-			return nil, false
-		}
-		return v, true
-	default:
-		return field, true
-	}
-}
-
-func verifSameVal(a, b interface{}) bool {
-	switch x := a.(type) {
-	case nil:
-		return b == nil
-	case int64:
-		y, ok := b.(int64)
-		return ok && x == y
-	case bool:
-		y, ok := b.(bool)
-		return ok && x == y
-	case string:
-		y, ok := b.(string)
-		return ok && x == y
-	}
-	return false
 }
 
 // H19-conv: csvToSql over every destination type and mapping: it returns an
@@ -184,138 +36,6 @@ func verifH_C19_conv() {
 		}
 	}
 	verifAssert((err == nil) == allOK, "accepted-iff-every-field-converts")
-	verifReach("end")
-}
-
-// H19-stream: a stream of records of chosen classes through doBatchInsert
-// (real encoding/csv reader, goroutine, both channels): every record is either
-// reported on the error channel or inserted exactly once, in input order, with
-// the converted values; a bad record changes nothing about the others.
-//
-// record classes: 0 valid, 1 valid with a NULL marker, 2 too short, 3 bare quote
-// inside a field, 4 unparsable number, 5 the relation manager refuses the insert
-func verifH_C19_stream() {
-	n := verifParam("records", 2)
-	sepIdx := verifParam("sep", 0)
-	sep := []rune{',', ';', '\t'}[sepIdx]
-	cfg := importCfg{table: "t", separator: sep,
-		dstCols:  []string{"num", "txt"},
-		srcCols:  []int{1, 0},
-		colTypes: []storage.DataType{storage.TypeInt, storage.TypeVarchar}}
-	// sparse=1: the mapping skips a CSV column (source columns 2 and 0 of three),
-	// and a record may have two fields only (as many as are mapped, fewer than needed)
-	sparse := verifParam("sparse", 0) == 1
-	nclass := 6
-	if sparse {
-		cfg.srcCols = []int{2, 0}
-		nclass = 7
-	}
-	mid := func(line []byte) []byte {
-		if sparse {
-			return append(append(line, byte(sep)), 'f')
-		}
-		return line
-	}
-	rm := &verifImportRM{}
-	var input []byte
-	type want struct {
-		ok   bool
-		vals []interface{}
-	}
-	var wants []want
-	accepted, insertCalls := 0, 0
-	for r := 0; r < n; r++ {
-		class := verifChoice("class", nclass)
-		txt := verifBytes("txt", 2)
-		for _, c := range txt {
-			verifAssume(verifAnd(verifAnd(c != byte(sep), c != '"'), verifAnd(c != '\n', c != '\r')))
-			verifAssume(verifAnd(c > 0x20, c < 0x7f))
-		}
-		// the two text bytes are not, by accident, the NULL marker (that is class 1)
-		verifAssume(!verifAnd(txt[0] == '\\', txt[1] == 'N'))
-		dg := verifBytes("num", 2)
-		for _, c := range dg {
-			verifAssume(verifAnd(c >= '0', c <= '9'))
-		}
-		num := int64(dg[0]-'0')*10 + int64(dg[1]-'0')
-		var line []byte
-		w := want{}
-		switch class {
-		case 0:
-			line = append(append(mid(append([]byte{}, txt...)), byte(sep)), dg...)
-			w = want{true, []interface{}{num, string(txt)}}
-		case 1:
-			line = append(append(mid([]byte("\\N")), byte(sep)), dg...)
-			w = want{true, []interface{}{num, nil}}
-		case 2:
-			line = append([]byte{}, txt...)
-		case 3:
-			line = append(append(mid([]byte{txt[0], '"', txt[1]}), byte(sep)), dg...)
-		case 4:
-			line = append(append(mid(append([]byte{}, txt...)), byte(sep)), 'x', dg[0])
-		case 6:
-			// sparse mapping only: two fields, the number column is missing
-			line = mid(append([]byte{}, txt...))
-		default:
-			line = append(append(mid(append([]byte{}, txt...)), byte(sep)), dg...)
-			// the manager refuses this one record (at most one such record per stream)
-			if rm.failOn != 0 {
-				verifAssume(false)
-			}
-			rm.failOn = insertCalls + 1
-		}
-		if class == 5 {
-			w = want{false, nil}
-		}
-		if class == 0 || class == 1 || class == 5 {
-			insertCalls++
-		}
-		if w.ok {
-			accepted++
-		}
-		wants = append(wants, w)
-		input = append(input, line...)
-		input = append(input, '\n')
-	}
-	_ = accepted
-	chOk, chErr := doBatchInsert(rm, cfg, strings.NewReader(string(input)))
-	oks, errs := 0, 0
-	for chOk != nil || chErr != nil {
-		select {
-		case _, ok := <-chOk:
-			if ok {
-				oks++
-			} else {
-				chOk = nil
-			}
-		case _, ok := <-chErr:
-			if ok {
-				errs++
-			} else {
-				chErr = nil
-			}
-		}
-	}
-	verifAssert(oks+errs == n, "one-event-per-record")
-	wantOK := 0
-	for _, w := range wants {
-		if w.ok {
-			wantOK++
-		}
-	}
-	verifAssert(oks == wantOK, "accepted-count")
-	verifAssert(len(rm.inserted) == wantOK, "stored-count")
-	k := 0
-	for _, w := range wants {
-		if !w.ok {
-			continue
-		}
-		if k < len(rm.inserted) {
-			verifAssert(len(rm.inserted[k]) == 2, "stored-width")
-			verifAssert(verifSameVal(w.vals[0], rm.inserted[k][0]) && verifSameVal(w.vals[1], rm.inserted[k][1]), "stored-values-in-input-order")
-		}
-		k++
-	}
 	verifReach("end")
 }
 
